@@ -52,6 +52,7 @@ type Contract struct {
 	Modifies []string
 	ModAll   bool
 	NoSwallow bool // every error returned by a callee must make this function return a non-nil error
+	NoSwallowExcept []string // callees whose errors are handled by design
 	NoPanic  bool
 	Inline   bool
 	Pure     bool // callee has no side effects at all (modifies nothing)
@@ -521,6 +522,9 @@ func (cs *ContractSet) loadFile(path, repoDir string) error {
 				cs.GhostNames[m[3]] = true
 			case "noswallow":
 				cur.NoSwallow = true
+				if strings.HasPrefix(rest, "except ") {
+					cur.NoSwallowExcept = append(cur.NoSwallowExcept, fieldsComma(strings.TrimPrefix(rest, "except "))...)
+				}
 			case "nopanic":
 				cur.NoPanic = true
 			case "inline":
